@@ -202,6 +202,7 @@ func expandItems(target Schema, parentRefs []string, resolver *schemaLoader, bas
 }
 
 func expandSchema(target Schema, parentRefs []string, resolver *schemaLoader, basePath string) (*Schema, error) {
+	verifStep()
 	if target.Ref.String() == "" && target.Ref.IsRoot() {
 		newRef := normalizeRef(&target.Ref, basePath)
 		target.Ref = *newRef
